@@ -176,7 +176,7 @@ func c05Run(run *ev.Run) {
 		"'destroyed' is judged on the store's content after the check (equivalent refactorings are not flagged)",
 		"thorough additionally injects single store faults (before/after)",
 	}
-	depth := 6
+	depth := 5
 	if run.Tier == "thorough" {
 		depth = 7
 	}
